@@ -40,7 +40,7 @@ CHECKS = {
     "C08": dict(
         text="Every tempo value n of a swept range (all n up to 3*10^4 quick / 2*10^6 thorough plus stratified values up to 10^9), time signatures "
              "(u in 0..99 and large, l absent / 0..16), anchors and ticks with 1-18 digits and leading zeros are decoded by the real parser; TLC judges each "
-             "recorded value with exact BigNat arithmetic (Props!C08V: the float m*2^e is within half an ulp of n/1000; 2^l; exact microseconds; digit-exact ticks).",
+             "recorded value with exact BigNat arithmetic (Props!C08V: the float m*2^e is within half an ulp of n/1000; 2^l; exact microseconds; digit-exact ticks). The language part (which strings the B / TS / A recognisers accept, pairwise disjoint) is decided for strings of every length by the product of the extracted NFAs with the spec grammars (Lang.tla), witnesses replayed; realistic mixed sync sections must not be rejected.",
         design="5 (C08)", technique="TLC trace validation with exact limb arithmetic (BigNat.tla) of values recorded from the parser"),
     "C19": dict(
         text="TLC enumerates every sequence of read-only operations (32 operation forms, length <= 2 quick / <= 3 thorough) of ChartObject.tla, whose every action leaves "
@@ -87,7 +87,7 @@ CHECKS = {
     "C14": dict(
         text="TLC model-checks the first-match dispatcher Dispatch.tla (TryKind / Claim / Skip) for every section of <= 4/5 lines and every order of trying kinds: conservation, file order, order independence for disjoint recognisers "
              "(the overlapping variant is shown to violate it); every line sequence is replayed as an instrument, a sync and an events section with junk drawn from foreign-section lines, unsupported indices, malformed lines; "
-             "TLC judges per-kind claimed line indices, one report per unparsable line naming it, claimed + reported = body lines, and digest equality with the junk-free section (Props!C14V); seeded noisy sections up to 30 lines.",
+             "TLC judges per-kind claimed line indices, one report per unparsable line naming it, claimed + reported = body lines, and digest equality with the junk-free section (Props!C14V); seeded noisy sections up to 30 lines. Pairwise disjointness of the shipped instrument and sync recognisers is decided for strings of every length by the product of the extracted NFAs (Lang.tla), witnesses replayed.",
         design="5 (C14)", technique="TLA+ model checking (TLC) of the dispatcher + spec->code replay + TLC trace validation"),
     "C18": dict(
         text="TLC enumerates every depth-1 edit script (delete, duplicate, swap, 6 placements x 8 character classes, at every line) over two base charts (Faults.tla; depth 2 exhaustively in the thorough tier), "
@@ -105,6 +105,22 @@ CHECKS = {
              "schedules (24 857) are replayed on the real parser by a deterministic cooperative scheduler (sys.settrace switch points, fresh interpreters and cache-cleared batches), plus seeded line-granularity schedules and a free-running stress; "
              "TLC judges every parse against the digest of the same text parsed alone in a fresh interpreter (Props!C17V).",
         design="5 (C17)", technique="TLA+ model checking (TLC) of interleavings + replay of TLC schedules by a deterministic thread scheduler + TLC trace validation"),
+    "C07": dict(
+        text="The shipped N / S / E recognisers are extracted from the working tree as epsilon-free NFAs (from Python's own regex parse tree) and TLC explores their product with the spec's canonical and liberal grammars (Lang.tla): "
+             "Canon_K within L(impl_K) within Liberal_K and pairwise disjointness for strings of EVERY length over a 94-character pool; every product state's witness string is replayed on the real recognisers (which also validates the extraction). "
+             "Canonical lines with 1-30 digit numbers and 0-5 blanks of padding, every single-symbol insertion / deletion / substitution of five base lines, near-miss shapes and other sections' lines are run through the real recognisers and TLC "
+             "judges acceptance and the decoded digits / index / verbatim word with the grammar matcher and decoders of Grammar.tla / Lines.tla (Props!C07V).",
+        design="5 (C07)", technique="TLC product-automaton model checking of extracted recognisers vs. spec grammars + witness replay + TLC trace validation of decoded lines"),
+    "C09": dict(
+        text="TLC explores the product of the three extracted global-event recognisers with the class grammars under the EXTRACTED order in which kinds are tried (first-match: a 'lyric ' text is claimed by lyric and by nothing tried before it, etc., "
+             "and each recogniser stays within its liberal shape) for strings of every length; witnesses are replayed. Every text of <= 3/4 symbols over a 14-symbol alphabet (quotes, blanks, '=', brackets, non-ASCII, lyric / section with and without "
+             "the blank) is parsed alone in a real events section, and seeded whole sections with all kinds interleaved; TLC classifies each line itself (Lines!ClassifyGlobal) and judges list membership, tick, verbatim value and file order (Props!C09V).",
+        design="5 (C09)", technique="TLC product-automaton model checking with extracted kind order + spec->code replay + TLC trace validation with in-spec classification"),
+    "C10": dict(
+        text="TLC explores, for all 24 extracted field recognisers, Canon_f within L(impl_f) within Liberal_f and all 276 pairwise disjointness products for strings of every length; witnesses are replayed. All 24 singletons, ordered pairs (200 seeded / all 552), "
+             "each field absent in turn, permutations of 5 fields, seeded subsets / permutations of all 24 with values containing quotes, '=', other fields' names, inner blanks and non-ASCII, and all values of <= 2 symbols are parsed for real; "
+             "TLC decodes every field from its own line (Lines!DecodeField), applies the documented defaults and judges all 24 observed values and MissingRequiredField (Props!C10V).",
+        design="5 (C10)", technique="TLC product-automaton model checking of 24 extracted recognisers + witness replay + TLC trace validation with in-spec field decoding"),
 }
 
 PENDING = {}
